@@ -31,6 +31,8 @@ for sid in ids:
 for row in rows:
     print('%-14s %-4s %-16s %s' % row)
 # persist: seeded/results.json (latest status per seed and property) and seeded/README.md
+import fcntl
+_lk = open(os.path.join(V, 'seeded', '.results.lock'), 'w'); fcntl.flock(_lk, fcntl.LOCK_EX)
 rp = os.path.join(V, 'seeded', 'results.json')
 res = json.load(open(rp)) if os.path.exists(rp) else {}
 head = subprocess.run(['git', '-C', V, 'rev-parse', '--short', 'HEAD'], capture_output=True, text=True).stdout.strip()
